@@ -258,12 +258,17 @@ _AS = "content_of(rest_of(%s))" % _V                   # the element stream of t
 containment("_messages:_unpack_search_result_entry", options=_PO,
             ensures=["result.message_id == message_id", "result.object_name == unutf8(content_of(%s))" % _V,
                      "len(nth_rest(%s, len(result.attributes))) == 0" % _AS,
-                     "forall(q, 0, len(result.attributes), len(nth_rest(%s, q)) > 0)" % _AS],
+                     "forall(q, 0, len(result.attributes), len(nth_rest(%s, q)) > 0)" % _AS,
+                     # the q-th item carries the type of the q-th element of the list (one quantifier level: the item's name)
+                     "forall(q, 0, len(result.attributes), result.attributes[q].name == unutf8(content_of(content_of(nth_rest(%s, q)))))" % _AS],
             loops={0: dict(snapshot={"r0": "attr_reader._view"},
                            invariant=["attr_reader._view == nth_rest(r0, len(attributes))",
-                                      "forall(q, 0, len(attributes), len(nth_rest(r0, q)) > 0)"],
-                           snapshot_each={"k0": "len(attributes)"},
-                           body_hints=["lemma_nth_rest_step(r0, k0)", "len(attributes) == k0 + 1"],
+                                      "forall(q, 0, len(attributes), len(nth_rest(r0, q)) > 0)",
+                                      "forall(q, 0, len(attributes), attributes[q].name == unutf8(content_of(content_of(nth_rest(r0, q)))))"],
+                           snapshot_each={"k0": "len(attributes)", "prev": "attributes"},
+                           body_hints=["lemma_nth_rest_step(r0, k0)", "len(attributes) == k0 + 1", "forall(q, 0, k0, attributes[q] == prev[q])",
+                                       "attributes[k0].name == unutf8(content_of(content_of(nth_rest(r0, k0))))",
+                                       "forall(q, 0, k0, attributes[q].name == prev[q].name)"],
                            decreases="len(attr_reader._view)")},
             exit_hints=["r0 == %s" % _AS])
 
@@ -290,7 +295,7 @@ containment("_controls:PagedResultControl.unpack", reader=None, options=_CO,
 _FCH = (("FilterAnd", 0), ("FilterOr", 1), ("FilterNot", 2), ("FilterEquality", 3), ("FilterSubstrings", 4), ("FilterGreaterOrEqual", 5),
         ("FilterLessOrEqual", 6), ("FilterPresent", 7), ("FilterApproxMatch", 8), ("FilterExtensibleMatch", 9))
 containment("_filter:LDAPFilter.unpack", options=_FO,
-            ensures=[_PROGRESS, "id_class(%s) == 2" % _V] + ["isinstance(result, %s) == (id_number(%s) == %d)" % (k, _V, n) for k, n in _FCH] +
+            ensures=[_PROGRESS, "id_class(%s) == 2" % _V, "reader._view == rest_of(%s)" % _V] + ["isinstance(result, %s) == (id_number(%s) == %d)" % (k, _V, n) for k, n in _FCH] +
                     ["implies(id_number(%s) == 7, result.attribute == unutf8(%s))" % (_V, _C),
                      "implies(id_number(%s) == 3 or id_number(%s) == 5 or id_number(%s) == 6 or id_number(%s) == 8, "
                      "result.attribute == unutf8(content_of(%s)) and result.value == content_of(%s))" % (_V, _V, _V, _V, _C, _R)])
@@ -333,3 +338,22 @@ containment("_filter:FilterSubstrings.unpack", options=_FO,
 containment("_filter:FilterNot.unpack", options=_FO,
             ensures=[_PROGRESS, "id_class(%s) == 2" % _V, "id_number(%s) == 2" % _V, "reader._view == rest_of(%s)" % _V, "id_class(%s) == 2" % _C] +
                     ["isinstance(result.filter, %s) == (id_number(%s) == %d)" % (k_, _C, n_) for k_, n_ in _FCH])
+
+# and [0] / or [1] SET OF Filter: as many sub-filters as the set has elements, each one of the class its own context tag number
+# selects (what each sub-filter's fields are is the postcondition of the recursive call; not carried through the list)
+for _n, _id in (("FilterAnd", 0), ("FilterOr", 1)):
+    containment("_filter:%s.unpack" % _n, options=_FO, local_types=_LT[_n],
+                ensures=[_PROGRESS, "id_class(%s) == 2" % _V, "id_number(%s) == %d" % (_V, _id), "id_constructed(%s)" % _V, "reader._view == rest_of(%s)" % _V,
+                         "len(nth_rest(%s, len(result.filters))) == 0" % _C,
+                         "forall(q, 0, len(result.filters), len(nth_rest(%s, q)) > 0)" % _C,
+                         "forall(q, 0, len(result.filters), id_class(nth_rest(%s, q)) == 2)" % _C] +
+                        ["forall(q, 0, len(result.filters), %s)" % " and ".join("(isinstance(result.filters[q], %s) == (id_number(nth_rest(%s, q)) == %d))" % (k_, _C, n_) for k_, n_ in _FCH)],
+                loops={0: dict(snapshot={"r0": "%s_reader._view" % _n[6:].lower()},
+                               invariant=["%s_reader._view == nth_rest(r0, len(filters))" % _n[6:].lower(),
+                                          "forall(q, 0, len(filters), len(nth_rest(r0, q)) > 0)",
+                                          "forall(q, 0, len(filters), id_class(nth_rest(r0, q)) == 2)"] +
+                                         ["forall(q, 0, len(filters), %s)" % " and ".join("(isinstance(filters[q], %s) == (id_number(nth_rest(r0, q)) == %d))" % (k_, n_) for k_, n_ in _FCH)],
+                               snapshot_each={"k0": "len(filters)", "prev": "filters"},
+                               body_hints=["lemma_nth_rest_step(r0, k0)", "len(filters) == k0 + 1", "forall(q, 0, k0, filters[q] == prev[q])"],
+                               decreases="len(%s_reader._view)" % _n[6:].lower())},
+                exit_hints=["r0 == %s" % _C])
